@@ -20,7 +20,8 @@
 (* Mech - rates, proportions, assignments, occurrences stored separately   *)
 (*        and updated the way the code does; rules R.init ("derive" |      *)
 (*        "zeros": what the constructor leaves in the derived buffers) and *)
-(*        R.hook ("recompute" | "none": the load_state_dict post hook).    *)
+(*        R.hook ("recompute" | "none" | "closure": what the              *)
+(*        load_state_dict post hook does, see MLoad).                      *)
 (***************************************************************************)
 EXTENDS Integers, Sequences, FiniteSets, TLC
 
@@ -51,11 +52,8 @@ Ok(st) == {Out(st, [t |-> "ok"])}
 
 WithRates(st, r) == LET d == Derive(r) IN [st EXCEPT !.r = r, !.p = d.p, !.as = d.as, !.oc = d.oc]
 
-Fresh(R) ==
-  IF R.init = "derive" THEN WithRates([r |-> Zero, p |-> Zero, as |-> [n \in Neurons |-> 1], oc |-> [k \in Classes |-> 0],
-                                       saved |-> [has |-> FALSE, r |-> Zero]], Zero)
-  ELSE [r |-> Zero, p |-> Zero, as |-> [n \in Neurons |-> 1], oc |-> [k \in Classes |-> 0],
-        saved |-> [has |-> FALSE, r |-> Zero]]
+Blank == [r |-> Zero, p |-> Zero, as |-> [n \in Neurons |-> 1], oc |-> [k \in Classes |-> 0]]
+Fresh(R) == IF R.init = "derive" THEN WithRates(Blank, Zero) ELSE Blank
 
 \* update(inputs, labels): per class the mean input of its samples is added to the rates
 \*   clscounts = bincount(labels); rates = exp(-decay * clscounts) * rates + scatter_add(...) / clscounts
@@ -77,21 +75,22 @@ MInfer(st, x, prop) ==
   IN {Out(st, [t |-> "inf", logits |-> lg, pred |-> k]) : k \in {j \in Classes : lg[j] = MaxOf(lg, Classes)}}
 
 MSetRates(st, r) == Ok(WithRates(st, r))
-MSave(st) == Ok([st EXCEPT !.saved = [has |-> TRUE, r |-> st.r]])
-\* load_state_dict into this instance / into a freshly constructed one
-Loaded(base, st, R) ==
-  IF R.hook = "recompute" THEN WithRates([base EXCEPT !.saved = st.saved], st.saved.r)
-  ELSE [base EXCEPT !.r = st.saved.r, !.saved = st.saved]
-MLoad(st, R) == Ok(Loaded(st, st, R))
-MReload(st, R) == Ok(Loaded(Fresh(R), st, R))
+\* load_state_dict of a checkpoint holding the rates r into a target:
+\*   "self"  this instance;  "fresh"  a newly constructed classifier;
+\*   "copy"  a copy.deepcopy of this instance (a cloned template, pristine or trained)
+\* rates_ is persisted; the post hook registered by the constructor recomputes the derived
+\* buffers.  R.hook = "closure": the hook acts on the object that REGISTERED it, which for a
+\* deep copy is the original - the copy keeps the buffers it was copied with.
+MLoad(st, r, kind, R) ==
+  LET base == IF kind = "fresh" THEN Fresh(R) ELSE st
+      recompute == R.hook = "recompute" \/ (R.hook = "closure" /\ kind # "copy")
+  IN IF recompute THEN Ok(WithRates(base, r)) ELSE Ok([base EXCEPT !.r = r])
 
 MApplyR(st, o, R) ==
   CASE o.a = "update" -> MUpdate(st, o.inp, o.lab)
     [] o.a = "infer" -> MInfer(st, o.x, o.prop)
     [] o.a = "set_rates" -> MSetRates(st, o.r)
-    [] o.a = "save" -> MSave(st)
-    [] o.a = "load" -> MLoad(st, R)
-    [] o.a = "reload" -> MReload(st, R)
+    [] o.a = "load" -> MLoad(st, o.r, o.kind, R)
 
 Intended == [init |-> "derive", hook |-> "recompute"]
 MApply(st, o) == MApplyR(st, o, Intended)
@@ -108,6 +107,6 @@ RefinesAtR(st, o, R) ==
   \A mo \in MApplyR(st, o, R) :
     /\ DerivedOK(mo.st)
     /\ o.a = "infer" => LET a == AbsInfer(st.r, o.x, o.prop) IN mo.ret.logits = a.logits /\ mo.ret.pred \in a.preds
-    /\ o.a \in {"load", "reload"} => mo.st.r = st.saved.r
+    /\ o.a = "load" => mo.st.r = o.r
     /\ o.a = "update" => \A n \in Neurons : RowSum(mo.st.r, n) >= RowSum(st.r, n)
 =============================================================================
